@@ -59,7 +59,7 @@ def scenarios(ctx):
     if not quick:
         out.append(("group-two-faults", scen_group.make,
                     gc.two_members(**dict(tail, errs=gc.errs(), k_mid=False, explore_until=2.0,
-                                          fault_apis=["Heartbeat", "OffsetCommit", "JoinGroup", "SyncGroup", "LeaveGroup"])), [{"k": 1, "f": 1}]))
+                                          fault_apis=["Heartbeat", "OffsetCommit", "LeaveGroup"])), [{"k": 1, "f": 1}]))
     base_f = {"faults": ["drop-before", "drop-after", "lose", "err"], "errs": {"Produce": [6, 7]}, "fault_apis": ["Produce", "Metadata"],
               "check_c01": False, "check_c02": False, "check_c19": True, "stop_gate": True}
     prog = [[(0, T), (0, T + 1)], [(0, T + 2), (1, T + 3)]]
